@@ -16,7 +16,7 @@ class Cfg:
     def __init__(self, n_workers=2, work_cap="default", res_cap=None, factory=False, quota=None, wait_ready=False,
                  calls=((3, 1, True),), begin_fault=(), item_fault=(), ready_mid=False, none_inputs=False,
                  body_raises=False, impatient=False, input_kind=0, fault_exc="RuntimeError",
-                 end_fault=(), float_chunks=False, equal_workers=False):
+                 end_fault=(), float_chunks=False, equal_workers=False, join_timeout=False):
         """calls: (number of items, chunk_size, ordered)"""
         self.n_workers = n_workers
         self.work_cap = work_cap  # "default" (1.0) | None | int | float
@@ -48,10 +48,14 @@ class Cfg:
         self.float_chunks = float_chunks
         # the worker class defines value equality (all workers of a pool compare equal): the pool tells them apart by identity
         self.equal_workers = equal_workers
+        # oracle-only runs: the pool is constructed with a finite `join_timeout`; a timed join of a worker process returns
+        # whenever the scheduler lets it, whether the worker has exited or not (a worker whose end() takes long).  The worker
+        # objects also answer like `multiprocessing.Process` objects do: close() of a running one raises ValueError
+        self.join_timeout = join_timeout
 
     @property
     def oracle_only(self):
-        return self.impatient
+        return self.impatient or self.join_timeout
 
     def work_cap_int(self):
         wc = 1.0 if self.work_cap == "default" else self.work_cap
@@ -76,7 +80,7 @@ class Cfg:
                     item_fault=self.item_fault, ready_mid=self.ready_mid, none_inputs=self.none_inputs,
                     body_raises=self.body_raises, impatient=self.impatient, input_kind=self.input_kind,
                     fault_exc=self.fault_exc, end_fault=self.end_fault, float_chunks=self.float_chunks,
-                    equal_workers=self.equal_workers)
+                    equal_workers=self.equal_workers, join_timeout=self.join_timeout)
 
 
 class SimEnv:
@@ -208,6 +212,10 @@ class SimEnv:
                     raise FAULTS[env.cfg.fault_exc]("begin failed")
 
             def end(self):
+                if getattr(env.cfg, "join_timeout", False):
+                    # an end() that takes its time: the process is still running for a while after it posted its identifier
+                    env.sched.visible(f"end W{self.wid}")
+                    env.sched.record(f"end W{self.wid}")
                 env.logs.setdefault(self.wid, []).append("e")
                 if self.wid in env.cfg.end_fault:
                     raise EndFailed("end failed")
@@ -256,12 +264,29 @@ class SimEnv:
                 self.work_queue = QueueView(self.work_queue, logged_get)
                 self.run()
 
+            def _check_closed(self):
+                if getattr(self, "_sim_closed", False):
+                    raise ValueError("process object is closed")
+
             def join(self, timeout=None):
-                env.sched.visible(f"join W{self.wid}", lambda: self._sim_thread is not None and self._sim_thread.finished)
+                self._check_closed()
+                if timeout is not None:
+                    # a timed join: returns when the process has exited or when the time is over, whichever the schedule brings
+                    env.sched.visible(f"join W{self.wid}")
+                else:
+                    env.sched.visible(f"join W{self.wid}", lambda: self._sim_thread is not None and self._sim_thread.finished)
                 env.sched.record(f"join W{self.wid}")
 
             def is_alive(self):
+                self._check_closed()
                 return self._sim_thread is not None and not self._sim_thread.finished
+
+            def close(self):
+                # multiprocessing.Process.close(): releases the resources of a process that has exited, refuses a running one
+                if self._sim_thread is not None and not self._sim_thread.finished:
+                    raise ValueError("Cannot close a process while it is still running. You should first call join() or "
+                                     "terminate().")
+                self._sim_closed = True
 
             def __eq__(self, other):
                 if env.cfg.equal_workers:
@@ -286,6 +311,7 @@ class SimEnv:
 
             @property
             def exitcode(self):
+                self._check_closed()
                 if self._sim_thread is not None and self._sim_thread.finished:
                     return self._sim_exit if self._sim_exit is not None else 0
                 return None
@@ -299,6 +325,7 @@ class SimEnv:
         W = self.worker_class()
         cfg = self.cfg
         wc = 1.0 if cfg.work_cap == "default" else cfg.work_cap
+        jt = {"join_timeout": 1} if getattr(cfg, "join_timeout", False) else {}
         if cfg.factory:
             opp = self.opp
 
@@ -307,10 +334,10 @@ class SimEnv:
                     return W(ctx)
 
             self.pool = opp.FactoryFunctorPool(cfg.n_workers, Factory(), context=ctx, work_queue_maxsize=wc,
-                                               results_queue_maxsize=cfg.res_cap)
+                                               results_queue_maxsize=cfg.res_cap, **jt)
         else:
             self.pool = self.opp.FunctorPool([W(ctx) for _ in range(cfg.n_workers)], context=ctx, work_queue_maxsize=wc,
-                                             results_queue_maxsize=cfg.res_cap)
+                                             results_queue_maxsize=cfg.res_cap, **jt)
 
     def consumer(self):
         pool = self.pool
